@@ -418,13 +418,14 @@ func (g *gen) dataOutstanding(side string) bool {
 // HEADER_TABLE_SIZE occur two or three times with different values - the way a stack that appends
 // overrides to a list of defaults writes it - between other and unknown identifiers.
 //
-// The relay scans its queues after EACH value of INITIAL_WINDOW_SIZE (updateInitialWindowSize), so an
-// earlier, larger value releases DATA that the value in force no longer covers (F51, class
-// settings-larger-intermediate-initial-window).  Such chains are written with and without DATA
-// outstanding towards this endpoint: with DATA outstanding a bounded share (30 %) of the chains has
-// a non-final value above the last one, aimed with this endpoint's ledger at the head frame of a
-// blocked stream (exact fit / one short / one over / everything queued) or the 65535 default; the
-// ledger-stream clause judges what arrives, Classify decides the class from the schedule.
+// The relay has to apply the value in force of INITIAL_WINDOW_SIZE - the last one - once per frame:
+// a relay that scans its queues after EACH value releases, under an earlier, larger value, DATA that
+// the value in force does not cover (F51, repaired: relay.applySettings).  Such chains are written
+// with and without DATA outstanding towards this endpoint: with DATA outstanding a bounded share
+// (30 %) of the chains has a non-final value above the last one, aimed with this endpoint's ledger at
+// the head frame of a blocked stream (exact fit / one short / one over / everything queued) or the
+// 65535 default; the ledger-stream clause judges what arrives - anything released under a non-final
+// value is a violation (and a disagreement with the model).
 //
 // One restriction keeps the schedule inside what x/net's hpack accepts: hpack.Decoder accepts one
 // dynamic-table-size update at the start of a block unless its table is empty, and hpack.Encoder
